@@ -68,6 +68,14 @@ def run(r):
                 r.count(f"{v}:{api}", n)
                 for k in range(n):
                     r.case(("std", v, api, k), nontrivial=True)
+            if res.get("extra_cache_instructions"):
+                r.count("extra-CACHE:" + v, res["extra_cache_instructions"])
+                if v in ("3.11", "3.12", "3.13") and r.is_known("D42"):
+                    seen_known.add("D42")
+                else:
+                    found = True
+                    r.violation({"component": "xdis.std.get_instructions / Bytecode", "host": v, "extra_CACHE_instructions": res["extra_cache_instructions"],
+                                 "why": "xdis.std yields CACHE pseudo-instructions the host's dis does not"})
             for m in res["mismatches"]:
                 kk = known_kind(v, m)
                 if kk and r.is_known(kk):
@@ -133,6 +141,9 @@ def run(r):
     if r.is_known("D40"):
         r.known_finding("D40", "on a 3.13 host dis.Bytecode flags is_jump_target also at the start and end offsets of exception-table ranges (its labels for the table printout); "
                                "xdis.std flags jump targets and handler targets only, which is what C04 prescribes")
+    if r.is_known("D42"):
+        r.known_finding("D42", "on 3.11-3.13 hosts xdis.std.get_instructions / Bytecode also yield the CACHE pseudo-instructions, which dis hides unless show_caches=True (3.11, 3.12) "
+                               "and does not have at all in 3.13; all other instructions are compared")
     if r.is_known("D41"):
         r.known_finding("D41", "on a 3.13 host dis reports arg None for WITH_EXCEPT_START (opcode 44 = HAVE_ARGUMENT, not in dis.hasarg); xdis.std reports arg 0")
     if broken or not ok:
